@@ -222,6 +222,9 @@ func cmdCheck(args []string) int {
 			continue
 		}
 		for _, bc := range append([]*FuncContract{c}, c.Behaviors...) {
+			if bc.Trusted {
+				continue
+			}
 			wg.Add(1)
 			go func(c *FuncContract) {
 				defer wg.Done()
